@@ -11,9 +11,9 @@ import (
 	"github.com/filecoin-project/go-f3/certs"
 	"github.com/filecoin-project/go-f3/certstore"
 	"github.com/filecoin-project/go-f3/gpbft"
+	"github.com/filecoin-project/go-f3/verifharness/vds"
 	"github.com/filecoin-project/go-f3/verifharness/vev"
 	"github.com/filecoin-project/go-f3/verifharness/vgen"
-	"github.com/filecoin-project/go-f3/verifharness/vds"
 	"github.com/filecoin-project/go-f3/verifharness/vref"
 	"pgregory.net/rapid"
 )
